@@ -103,6 +103,13 @@ def expect_failure(sess, case, prog, root, style, node, excname, sigs, already_s
             raise Violation(f"{when}: expected {exp!r} (the failing function is served from the store) but got {res['exc'] or res['value']!r}", case)
         return set(), [], set(res.get("stored", []))
     completed, stack = cf
+    if res["exc"] is None and may_be_cached and node not in res["log"]:
+        # the failing function never ran: the evaluated root itself was served from the store (dds.eval serves the root
+        # when an earlier evaluation stored a blob under the same signature, e.g. because it kept that very function)
+        exp, _ = M.expected_value(prog, root)
+        if res["value"] != exp:
+            raise Violation(f"{when}: returned {res['value']!r}, plain execution gives {exp!r}", case)
+        return set(), [], set(res.get("stored", []))
     if res["exc"] is None:
         raise Violation(f"{when}: {node} raised {excname} but the evaluation returned {res['value']!r}", case)
     if not res["exc"]["same_object"]:
